@@ -7,3 +7,5 @@ require github.com/vektah/gqlparser/v2 v2.0.0
 replace github.com/vektah/gqlparser/v2 => /repo
 
 require gopkg.in/yaml.v3 v3.0.1
+
+require github.com/agnivade/levenshtein v1.2.1 // indirect
